@@ -18,6 +18,8 @@ func init() {
 		Rules: []Rule{
 			{"SCHEMA-CONFINEMENT", ruleSchemaConfinement},
 			{"UNKNOWN-FIELD-SKIP", ruleUnknownFieldSkip},
+			{"VERSION-SEARCH-EXHAUSTIVE", ruleVersionSearchExhaustive},
+			{"FIELD-IDS-ALWAYS", ruleFieldIDsAlways},
 			{"VERSION-FLIP", ruleVersionFlip},
 			{"MERGE-FRESH-COLLECTION", ruleMergeFreshCollection},
 			{"TXN-SHAPE", ruleTxnShape},
@@ -245,5 +247,84 @@ func ruleMergeFreshCollection(c *eng.Ctx) {
 		}
 		return true
 	})
+	c.Floor(rule, n, 1)
+}
+
+// ruleVersionSearchExhaustive: the search for the currently active version above a given version
+// visits every child version: in getActiveCollectionUp every recursive call sits in the range over
+// the children of the current version and descends into that loop's element. A positional descent
+// (children[0]) leaves the active version of a branched history unfound — setActiveSchemaVersion
+// then activates the target without deactivating it, and two versions stay active.
+func ruleVersionSearchExhaustive(c *eng.Ctx) {
+	const rule = "VERSION-SEARCH-EXHAUSTIVE"
+	fi := c.Anchor(rule, "internal/db.(*DB).getActiveCollectionUp")
+	if fi == nil {
+		return
+	}
+	info := fi.Pkg.TypesInfo
+	var stack []ast.Node
+	n := 0
+	ast.Inspect(fi.Decl.Body, func(m ast.Node) bool {
+		if m == nil {
+			stack = stack[:len(stack)-1]
+			return true
+		}
+		stack = append(stack, m)
+		call, ok := m.(*ast.CallExpr)
+		if !ok || eng.Callee(info, call) != fi.Obj {
+			return true
+		}
+		n++
+		good := false
+		for _, s := range stack {
+			rs, ok := s.(*ast.RangeStmt)
+			if !ok || rs.Value == nil {
+				continue
+			}
+			if _, isSlice := info.TypeOf(rs.X).Underlying().(*types.Slice); !isSlice {
+				continue
+			}
+			v := eng.ObjOf(info, rs.Value)
+			for _, a := range call.Args {
+				if v != nil && mentionsObj(info, a, v) {
+					good = true
+				}
+			}
+		}
+		c.Check(good, rule, fmt.Sprintf("getActiveCollectionUp:recursion#%d:over-every-child", n), call.Pos(), "the search descends into every child version",
+			"the recursive search for the active version does not descend into the element of a loop over all child versions: in a branched version history the active version is not found, so a second version is activated without deactivating it")
+		return true
+	})
+	c.Floor(rule, n, 1)
+}
+
+// ruleFieldIDsAlways: every saved collection version has short ids for all of its fields — also a
+// version that is saved inactive (documents can be written through its handle, and data written
+// before activation must stay readable after it): in description.SaveCollection every success exit
+// is preceded by id.SetShortFieldIDs.
+func ruleFieldIDsAlways(c *eng.Ctx) {
+	const rule = "FIELD-IDS-ALWAYS"
+	fi := c.Anchor(rule, "internal/db/description.SaveCollection")
+	if fi == nil {
+		return
+	}
+	info := fi.Pkg.TypesInfo
+	flow := eng.NewFlow(info, fi.Decl.Body)
+	isSet := func(nd ast.Node) bool {
+		return eng.FindCall(nd, false, func(cc *ast.CallExpr) bool {
+			return strings.HasSuffix(eng.CalleeName(info, cc), "id.SetShortFieldIDs")
+		}) != nil
+	}
+	n := 0
+	for _, r := range successReturnsP(c.P, info, fi.Decl) {
+		n++
+		pt, ok := flow.PointOf(r)
+		if !ok {
+			continue
+		}
+		un := flow.ReachesWithout(pt, isSet, nil)
+		c.Check(!un, rule, fmt.Sprintf("SaveCollection:success-return#%d:after-SetShortFieldIDs", n), r.Pos(), "short field ids are assigned before the version is saved",
+			"a collection version can be saved without short field ids being assigned to its fields (e.g. when it is saved inactive): fields written through that version are stored under id 0 and are unreadable once the version is activated")
+	}
 	c.Floor(rule, n, 1)
 }
